@@ -87,6 +87,8 @@ class Container:
         self.abstract = abstract
         self.names = list(base.names) if base else []
         self.attrs = list(base.attrs) if base else []
+        # wildcard keys with keyed defaults, own and inherited: (kind, raw default keys)
+        self.wild = list(base.wild) if base else []
 
     def add_child(self, key, attr):
         if key is not None:
@@ -179,6 +181,7 @@ def _check(events, imports=None):
                         if rec['kind'] == 'key' and eq_any(nk, seen):
                             raise Reject()
                         seen.append(nk)
+                    rec['cont'].wild.append((rec['kind'], list(rec['defaults'])))
             elif name in ('sectiontype', 'abstracttype', 'section', 'multisection'):
                 stack.pop()
             elif name == 'schema':
@@ -246,6 +249,15 @@ def _check(events, imports=None):
             if find_type(n) is not None:
                 raise Reject()
             c = Container(n, kt, base=base)
+            # inherited wildcard defaults are normalised again under the derived type's key type: a key
+            # the new key type refuses, or two keys of a single-valued wildcard it makes equal, is an error
+            for kind, raw in c.wild:
+                seen = []
+                for k in raw:
+                    nk = conv(KEYTYPES[kt], k)
+                    if kind == 'key' and eq_any(nk, seen):
+                        raise Reject()
+                    seen.append(nk)
             if 'implements' in attrs:
                 i = conv(dtspec.basic_key, attrs['implements'])
                 it = find_type(i)
